@@ -69,15 +69,23 @@ def run_reg(reqs, timeout=1500):
     # the harness's bounds are wall-clock (2 s for a goroutine to reach its next yield point) and a loaded machine
     # can miss them; a real hang is not a matter of patience and shows again
     global HANGS_NOT_REPRODUCED
-    for i, r in enumerate(resps):
-        if r.get("hang"):
-            env = dict(os.environ, VH_PATIENCE="5")
-            for _ in range(2):
-                rc2, again, _ = hc.run_lines([os.path.join(vlib.BIN, "vh_reg")], [reqs[i]], timeout=300, env=env)
-                if len(again) == 1 and not again[0].get("hang"):
-                    resps[i] = again[0]
-                    HANGS_NOT_REPRODUCED += 1
-                    break
+    hung = [i for i, r in enumerate(resps) if r.get("hang")]
+    reproduced = 0
+    for n, i in enumerate(hung):
+        # when the first few all show again the hang is real and systematic: the rest is believed as observed
+        if (n >= 4 and reproduced == n) or n >= 40:
+            break
+        env = dict(os.environ, VH_PATIENCE="5")
+        again_hung = True
+        for _ in range(2):
+            rc2, again, _ = hc.run_lines([os.path.join(vlib.BIN, "vh_reg")], [reqs[i]], timeout=300, env=env)
+            if len(again) == 1 and not again[0].get("hang"):
+                resps[i] = again[0]
+                HANGS_NOT_REPRODUCED += 1
+                again_hung = False
+                break
+        if again_hung:
+            reproduced += 1
     return resps
 
 
